@@ -72,7 +72,7 @@ func c16Check(c *Case) []Violation {
 		if cr.Cost {
 			typ = "cost"
 		}
-		if !near(asF(vr["min"]), lo) || !near(asF(vr["max"]), hi) || (asS(rm["type"]) == "cost") != cr.Cost {
+		if asF(vr["min"]) != lo || asF(vr["max"]) != hi || (asS(rm["type"]) == "cost") != cr.Cost {
 			vs = append(vs, viol(c, "C16/report-range", "criterion %s reported with type %v range %v; its type is %s and its range (declared or observed over all known alternatives) is [%v,%v]", id, rm["type"], vr, typ, lo, hi))
 		}
 		av := asM(rm["alternativesValues"])
@@ -84,7 +84,7 @@ func c16Check(c *Case) []Violation {
 					got = na.Values[id]
 				}
 			}
-			if !near(got, want) {
+			if !nearScale(got, want, math.Max(math.Abs(hi), math.Max(math.Abs(lo), math.Abs(a.Values[id])))) {
 				vs = append(vs, viol(c, "C16/mirror", "alternative %s criterion %s: value %v became %v, expected max+min-v = %v (range [%v,%v])", a.ID, id, a.Values[id], got, want, lo, hi))
 			}
 			if rv, ok := av[a.ID]; !ok || asF(rv) != got {
@@ -97,7 +97,7 @@ func c16Check(c *Case) []Violation {
 		// range preserved
 		ncr, _ := next.Crit(id)
 		nlo, nhi := next.Range(ncr)
-		if !near(nlo, lo) || !near(nhi, hi) {
+		if !nearScale(nlo, lo, math.Max(math.Abs(lo), math.Abs(hi))) || !nearScale(nhi, hi, math.Max(math.Abs(lo), math.Abs(hi))) {
 			if !cr.HasRange {
 				vs = append(vs, viol(c, "C16/range-not-preserved", "criterion %s: observed range [%v,%v] became [%v,%v]", id, lo, hi, nlo, nhi))
 			}
@@ -163,7 +163,12 @@ func c16Check(c *Case) []Violation {
 								continue
 							}
 							for cid, v := range a.Values {
-								if !near(na.Values[cid], v) {
+								sc := math.Abs(v)
+								if pcr, ok := prev.Crit(cid); ok {
+									plo, phi := prev.Range(pcr)
+									sc = math.Max(sc, math.Max(math.Abs(plo), math.Abs(phi)))
+								}
+								if !nearScale(na.Values[cid], v, 8*sc) {
 									vs = append(vs, viol(c, "C16/not-involutive", "reversing %v twice leaves %s.%s = %v instead of %v", prev.CritIDs(), a.ID, cid, na.Values[cid], v))
 								}
 							}
@@ -247,7 +252,7 @@ func c16Run(s *Shard) {
 	sampled := false
 	for _, method := range allMethods {
 		for _, subset := range []bool{false, true} {
-			for variant := 0; variant < 5; variant++ { // observed range, declared range, c1 strictly negative, c3 single-valued, undeclared extra values
+			for variant := 0; variant < 6; variant++ { // observed range, declared range, c1 strictly negative, c3 single-valued, undeclared extra values, c3 at 1e-9 scale
 				root := rootRequest(method, subset, variant == 1)
 				if variant == 2 {
 					root = negativeVariant(root)
@@ -256,6 +261,9 @@ func c16Run(s *Shard) {
 					for _, a := range asL(root["knownAlternatives"]) {
 						asM(asM(a)["criteria"])["c3"] = 2.0
 					}
+				}
+				if variant == 5 {
+					root = tinyVariant(root)
 				}
 				if variant == 4 {
 					if method == "weightedSum" || method == "owa" || method == "choquetIntegral" {
